@@ -55,6 +55,9 @@ type echoCfg struct {
 	failAfter int
 	err       error
 
+	// fib: the client runs a FIB-ack session: an operation is answered with its RIB and its FIB result
+	fib bool
+
 	end      bool
 	endAfter int
 	answer   int
@@ -100,9 +103,20 @@ func (s *stubServer) echoModify(e *echoCfg, stream spb.GRIBI_ModifyServer) error
 			return err
 		}
 		h.recvd.Add(1)
+		// one response per request: the session parameters are accepted, the election id is echoed, the
+		// operations are acknowledged (the client's handshake messages carry one of the three each)
 		r := &spb.ModifyResponse{}
+		switch {
+		case m.GetParams() != nil:
+			r.SessionParamsResult = &spb.SessionParametersResult{Status: spb.SessionParametersResult_OK}
+		case m.GetElectionId() != nil:
+			r.ElectionId = m.GetElectionId()
+		}
 		for _, o := range m.GetOperation() {
 			r.Result = append(r.Result, &spb.AFTResult{Id: o.GetId(), Status: spb.AFTResult_RIB_PROGRAMMED})
+			if e.fib {
+				r.Result = append(r.Result, &spb.AFTResult{Id: o.GetId(), Status: spb.AFTResult_FIB_PROGRAMMED})
+			}
 		}
 		if !e.end || n < e.answer {
 			if err := stream.Send(r); err != nil {
